@@ -70,6 +70,56 @@ def run(rep, prog, tier):
     r5(rep, prog)
     r6(rep, prog)
     r7(rep, prog)
+    r8(rep, prog)
+
+
+STR_CUTS = {
+    ADV["simple"]: (1, "R2: the slice operands are the stored offsets, produced by char_indices of the text"),
+    ADV["whitespace"]: (1, "R2: same"),
+    ADV["ngram"]: (1, "R2: operands are code point frontiers yielded by CodepointFrontiers over the same text"),
+    "<tantivy::tokenizer::ngram_tokenizer::CodepointFrontiers<'_> as core::iter::traits::iterator::Iterator>::next::{closure#0}":
+        (1, "`&self.s[offset..]` where offset is the running sum of char lengths decoded from the front of s"),
+    REGEX_ADV: (1, "R5: `&self.text[m.end()..]`, the end of a regex Match on that text"),
+    "<tantivy::tokenizer::facet_tokenizer::FacetTokenStream<'_> as tantivy_tokenizer_api::TokenStream>::advance":
+        (2, "cut at the position of the 0x00 facet separator (ASCII: both sides are boundaries) or at text.len()"),
+    "tantivy::tokenizer::split_compound_words::SplitCompoundWordsTokenStream::<'_, T>::split":
+        (1, "split_at the end of an aho-corasick match of a whole-str pattern over the token text"),
+}
+STR_CUT_CALLS = r"^(core::str::traits::<impl core::ops::index::Index<I> for str>::index|core::str::traits::<impl core::ops::index::IndexMut<I> for str>::index_mut|core::str::<impl str>::(split_at|split_at_mut|split_at_checked|get_unchecked|get_unchecked_mut|slice_unchecked|slice_mut_unchecked)|core::str::converts::from_utf8_unchecked|core::str::converts::from_utf8_unchecked_mut|alloc::string::String::(from_utf8_unchecked|truncate|split_off|drain|remove|insert|insert_str|replace_range))$"
+
+
+def r8(rep, prog):
+    """every place where a tokenizer cuts a str by a byte index is a triaged site"""
+    R = "C19-R8"
+    rep.rule(R, "byte-index cuts of text in the tokenizers: every call in src/tokenizer and tokenizer-api that cuts a str or String at a byte index (str indexing, split_at, *_unchecked, String::truncate / split_off / drain / replace_range ...) is one of the triaged sites of the table, each with the reason why its index is a character boundary inside the text; in particular no Tokenizer::token_stream hands its stream a sub-slice of the text")
+    CUTS = prog.names(STR_CUT_CALLS)
+    found = {}
+    nbodies = 0
+    for b in prog.bodies.values():
+        if b.kind in ("const", "static", "promoted"):
+            continue
+        if not (b.span.startswith("src/tokenizer/") or b.span.startswith("tokenizer-api/")):
+            continue
+        nbodies += 1
+        for bi, t in b.calls():
+            f = t.get("res") or t.get("f") or ""
+            if f in CUTS:
+                found.setdefault(b.id, []).append((bi, f))
+    rep.floor(R, "tokenizer bodies scanned", nbodies, 150)
+    for fid, (n, why) in sorted(STR_CUTS.items()):
+        got = len(found.get(fid, []))
+        b = prog.body(fid)
+        rep.check(got <= n and b is not None, R, "byte-index cuts in %s" % short(fid), "%d site(s): %s" % (got, why),
+                  ("`%s` cuts text at a byte index at %d sites, %d were triaged (%s): the new cut has no argument that its index is a character boundary inside the text" % (fid, got, n, why)) if b is not None else "cannot establish: body `%s` not found" % fid,
+                  site=site(b, found[fid][-1][0]) if b is not None and found.get(fid) else (b.span if b is not None else None))
+    for fid, ss in sorted(found.items()):
+        if fid in STR_CUTS:
+            continue
+        b = prog.body(fid)
+        rep.check(False, R, "byte-index cut in %s" % short(fid), "",
+                  "`%s` cuts text at a byte index (%s) and is not a triaged site: nothing shows that the index is a character boundary inside the text; a tokenizer that panics or shortens its text breaks every caller (indexing, snippets)" % (fid, short(ss[0][1])),
+                  site=site(b, ss[0][0]))
+    rep.floor(R, "triaged byte-index cut sites present", sum(len(v) for k, v in found.items() if k in STR_CUTS), 8)
 
 
 def r5(rep, prog):
